@@ -1,6 +1,7 @@
 package mgr
 
 import (
+	"encoding/binary"
 	"fmt"
 	"math/rand"
 	"runtime/debug"
@@ -8,6 +9,8 @@ import (
 
 	"github.com/btcsuite/btcwallet/waddrmgr"
 	"github.com/btcsuite/btcwallet/walletdb"
+
+	"golang.org/x/crypto/nacl/secretbox"
 
 	"verif/internal/evid"
 	"verif/internal/vdb"
@@ -219,6 +222,11 @@ func (x *run) finalSweeps() {
 
 func (x *run) step(op *Op) {
 	w, cfg := x.w, x.cfg
+	if cfg.C04 && w.PrivCryptoKey == nil && w.Unlocked() && !w.WatchOnly {
+		if b := w.M.VerifSecretBuffers().Bytes["cryptoKeyPriv"]; len(b) == 32 && !allZero(b) {
+			w.PrivCryptoKey = append([]byte(nil), b...)
+		}
+	}
 	x.st["op:"+op.Kind]++
 	if strings.Contains(op.Name, "preceded in the same transaction") {
 		x.st["op:next-two-requests-in-one-transaction"]++
@@ -596,6 +604,54 @@ func (x *run) afterConvert() {
 	}
 	if x.fail(w.AccessBattery(x.st, 0)) {
 		return
+	}
+	// nothing that is still stored may open under the private crypto key the
+	// wallet had: the conversion must have removed every private record, not
+	// only flagged the wallet (logical content; freed pages are not inspected)
+	if len(w.PrivCryptoKey) == 32 {
+		var key [32]byte
+		copy(key[:], w.PrivCryptoKey)
+		var hit string
+		tried := 0
+		var walk func(b walletdb.ReadBucket, path string)
+		walk = func(b walletdb.ReadBucket, path string) {
+			b.ForEach(func(k, v []byte) error {
+				if hit != "" {
+					return nil
+				}
+				if v == nil {
+					if nb := b.NestedReadBucket(k); nb != nil {
+						walk(nb, path+"/"+string(k))
+					}
+					return nil
+				}
+				try := func(ct []byte, what string) {
+					if hit != "" || len(ct) < 24+secretbox.Overhead+1 {
+						return
+					}
+					tried++
+					var nonce [24]byte
+					copy(nonce[:], ct[:24])
+					if pt, ok := secretbox.Open(nil, ct[24:], &nonce, &key); ok {
+						hit = fmt.Sprintf("%s of key %x in bucket %q still opens under the wallet's private crypto key (%d plaintext bytes)", what, k, path, len(pt))
+					}
+				}
+				try(v, "the value")
+				for p := 0; p+4 <= len(v); p++ {
+					l := int(binary.LittleEndian.Uint32(v[p:]))
+					if l >= 24+secretbox.Overhead+1 && l <= len(v)-p-4 {
+						try(v[p+4:p+4+l], fmt.Sprintf("the %d-byte field at offset %d of the value", l, p+4))
+					}
+				}
+				return nil
+			})
+		}
+		w.View(func(ns walletdb.ReadBucket) error { walk(ns, "waddrmgr"); return nil })
+		x.st["c04-post-conversion-private-key-open-attempts"] += tried
+		if hit != "" {
+			x.fail(df("c04:private-record-survives-conversion", "after ConvertToWatchingOnly and a restart: %s", hit))
+			return
+		}
 	}
 	x.st["c04-conversions-checked"]++
 }
